@@ -206,6 +206,25 @@ package convert
 //@   ensures imp(e2 == nil, unbox(m2, *message.ConnectRequest).PingInterval == unbox(p.Message, *autogen.Message_ConnectRequest).ConnectRequest.PingInterval * 1000000000)
 //@   ensures imp(e2 == nil, unbox(m2, *message.ConnectRequest).PingTimeout == unbox(p.Message, *autogen.Message_ConnectRequest).ConnectRequest.PingTimeout * 1000000000)
 
+// The open requests carry their intervals at wire resolution - the expiry interval in whole seconds,
+// the upstream ack interval in whole milliseconds (rounded down) - for every duration the wire field
+// can hold, and the peer's converter reads them back as exactly that many seconds / milliseconds.
+//@ lemma upstreamOpenRequestIntervals
+//@   props C11
+//@   forall m *message.UpstreamOpenRequest
+//@   requires m != nil && isconst(m.QoS, message.QoS) && 0 <= m.ExpiryInterval && m.ExpiryInterval < 4294967296000000000 && 0 <= m.AckInterval && m.AckInterval < 4294967296000000
+//@   let p, e1 = WireToProto(m)
+//@   ensures e1 == nil && p != nil && typeis(p.Message, *autogen.Message_UpstreamOpenRequest)
+//@   ensures unbox(p.Message, *autogen.Message_UpstreamOpenRequest).UpstreamOpenRequest.ExpiryInterval * 1000000000 <= m.ExpiryInterval && m.ExpiryInterval < (unbox(p.Message, *autogen.Message_UpstreamOpenRequest).UpstreamOpenRequest.ExpiryInterval + 1) * 1000000000
+//@   ensures unbox(p.Message, *autogen.Message_UpstreamOpenRequest).UpstreamOpenRequest.AckInterval * 1000000 <= m.AckInterval && m.AckInterval < (unbox(p.Message, *autogen.Message_UpstreamOpenRequest).UpstreamOpenRequest.AckInterval + 1) * 1000000
+//@ lemma downstreamOpenRequestExpiry
+//@   props C11
+//@   forall m *message.DownstreamOpenRequest
+//@   requires m != nil && isconst(m.QoS, message.QoS) && 0 <= m.ExpiryInterval && m.ExpiryInterval < 4294967296000000000
+//@   let p, e1 = WireToProto(m)
+//@   ensures e1 == nil && p != nil && typeis(p.Message, *autogen.Message_DownstreamOpenRequest)
+//@   ensures unbox(p.Message, *autogen.Message_DownstreamOpenRequest).DownstreamOpenRequest.ExpiryInterval * 1000000000 <= m.ExpiryInterval && m.ExpiryInterval < (unbox(p.Message, *autogen.Message_DownstreamOpenRequest).DownstreamOpenRequest.ExpiryInterval + 1) * 1000000000
+
 // error wrappers of the converter always return an error value
 //@ func errorConvertToWire
 //@   props C11 C12 C15
